@@ -5,6 +5,11 @@
 -/
 import QecVerif.Model.DriverC09
 import QecVerif.Model.DriverApp
+import QecVerif.Model.DriverLattice
+import QecVerif.Model.DriverLatticeColor666
+import QecVerif.Model.DriverLatticeRotatedPlanar
+import QecVerif.Model.DriverLatticeRotatedToric
+import QecVerif.Model.DriverLatticeToric
 
 open Qec.Drv
 
@@ -16,6 +21,11 @@ def dispatch (line : String) : String :=
   | "c01" :: rest => (c01 rest).getD "bad-op"
   | "c04" :: rest => (c04 rest).getD "bad-op"
   | "c05" :: rest => (c05 rest).getD "bad-op"
+  | "planar" :: rest => (planar rest).getD "bad-op"
+  | "color666" :: rest => (color666 rest).getD "bad-op"
+  | "rotatedplanar" :: rest => (rotatedplanar rest).getD "bad-op"
+  | "rotatedtoric" :: rest => (rotatedtoric rest).getD "bad-op"
+  | "toric" :: rest => (toric rest).getD "bad-op"
   | _ => "bad-op"
 
 partial def loop (h : IO.FS.Stream) (out : IO.FS.Stream) : IO Unit := do
